@@ -125,12 +125,17 @@ Lemma fallback_bodies_ok :
 Proof. repeat split; reflexivity. Qed.
 
 (* ---- primitives ---- *)
+Lemma QR_blas_write bi (new old : list Q) : QR (blas_write bi new old) = blas_write bi (QR new) (QR old).
+Proof.
+  unfold blas_write, take_first. destruct (bi_full bi); [reflexivity|].
+  rewrite map_app, firstn_map, skipn_map. reflexivity.
+Qed.
 Lemma do_scal_transfer r bi k t sq sr : sim sq sr -> sim (do_scal r bi k t sq) (do_scal r bi (Q2R k) t sr).
 Proof.
   intros Hs. destruct fallback_bodies_ok as (_ & H2 & _).
   destruct r; cbn [do_scal]; try (apply run_ps_transfer; assumption).
   destruct (bi_call bi); [|exact Hs]. apply sim_upd; [exact Hs|]. rewrite Hs. unfold blas_scal.
-  symmetry. apply QR_map. intros a. apply Q2R_nmul.
+  symmetry. rewrite QR_blas_write. f_equal. apply QR_map. intros a. apply Q2R_nmul.
 Qed.
 Lemma do_axpy_transfer r bi k src tgt sq sr :
   sim sq sr -> sim (do_axpy r bi k src tgt sq) (do_axpy r bi (Q2R k) src tgt sr).
@@ -138,7 +143,7 @@ Proof.
   intros Hs. destruct fallback_bodies_ok as (H1 & _ & _).
   destruct r; cbn [do_axpy]; try (apply run_ps_transfer; assumption).
   destruct (bi_call bi); [|exact Hs]. apply sim_upd; [exact Hs|]. rewrite !Hs. unfold blas_axpy.
-  symmetry. apply QR_vmap2. intros a b _ _. rewrite Q2R_nadd, Q2R_nmul. reflexivity.
+  symmetry. rewrite QR_blas_write. f_equal. apply QR_vmap2. intros a b _ _. rewrite Q2R_nadd, Q2R_nmul. reflexivity.
 Qed.
 Lemma do_copy_transfer r bi src tgt sq sr :
   sim sq sr -> sim (do_copy r bi src tgt sq) (do_copy r bi src tgt sr).
@@ -147,7 +152,7 @@ Proof.
   destruct r; cbn [do_copy].
   - rewrite <- Q2R_nzero. apply run_ps_transfer; assumption.
   - rewrite <- Q2R_nzero. apply run_ps_transfer; assumption.
-  - destruct (bi_call bi); [|exact Hs]. apply sim_upd; [exact Hs | apply Hs].
+  - destruct (bi_call bi); [|exact Hs]. apply sim_upd; [exact Hs | rewrite !Hs; symmetry; apply QR_blas_write].
 Qed.
 Lemma do_fill_transfer r bi z t sq sr : sim sq sr -> sim (do_fill r bi z t sq) (do_fill r bi z t sr).
 Proof.
